@@ -18,7 +18,11 @@ import (
 )
 
 var c08Data = func() bq.Data {
-	return gen.DataSet(gen.Rng(4242, "c08data", 0), 2, 14, true)
+	d := gen.DataSet(gen.Rng(4242, "c08data", 0), 2, 14, true)
+	for g, ts := range gen.MixedNumericData() {
+		d[g] = ts
+	}
+	return d
 }()
 
 // c08Store builds store number k: 0 empty, 1 populated, 2 populated + memoizer.
@@ -174,6 +178,29 @@ func c08Generated(r *rt.Rec, rng *rand.Rand, n int, mutations bool) {
 	}
 }
 
+// c08RuntimeTyped: statements that parse and plan, have solutions, and go wrong
+// (if at all) only while rows are processed: aggregates over columns mixing
+// numeric literals with other kinds of values and NULL, and CONSTRUCT /
+// DECONSTRUCT with exactly one ill-kinded binding in a template slot.
+func c08RuntimeTyped(r *rt.Rec, rng *rand.Rand, k, n, constructs int) {
+	all := gen.MixedAggregateStatements()
+	for i := k; i < len(all); i += n {
+		sg := c08Exec(r, all[i], 1+i%2)
+		if sg >= bq.StageExecute {
+			r.Nontrivial(all[i])
+		}
+	}
+	data := gen.AllTriples(c08Data)
+	for i := 0; i < constructs; i++ {
+		text := gen.IllTypedConstruct(rng, []string{"construct", "deconstruct"}[rng.Intn(2)], data).Text()
+		sg := c08Exec(r, text, 1+rng.Intn(2))
+		if sg >= bq.StageExecute {
+			r.Nontrivial(text)
+			r.Count("ill_typed_constructs_executed", 1)
+		}
+	}
+}
+
 func c08Random(r *rt.Rec, rng *rand.Rand, n int) {
 	words := []string{"select", "from", "where", "{", "}", ";", "?a", "?g1", "/u<a>", `"p"@[]`, `"5"^^type:int64`, ".", ",", "insert", "data", "into", "group", "by", "having", "limit", "(", ")", "count", "as", "optional", "filter", "latest", "between", "2016-01-01T00:00:00Z", "\"", "<", ">", "="}
 	for i := 0; i < n; i++ {
@@ -209,14 +236,14 @@ func init() {
 	register(&rt.Check{
 		ID:    "C08",
 		Level: "exploration",
-		Rule: "statement texts against an empty store, a populated memory store and the populated store wrapped in the memoizer: (a) every token sequence up to length L over the 55 token kinds rendered to text (L=2 quick, 3 thorough; complete), (b) generated statements of all eight kinds (vocabulary hitting and missing the data, LIMIT 0/1/-1/2^63-1/float/text, aggregates over empty patterns, bindings reused across S/P/O/ID/TYPE/AT positions, OPTIONAL, bounds), (c) character- and token-level mutations of (b), (d) random bytes, random UTF-8 and random keyword salad; a sample also under -race; " +
+		Rule: "statement texts against an empty store, a populated memory store and the populated store wrapped in the memoizer: (a) every token sequence up to length L over the 55 token kinds rendered to text (L=2 quick, 3 thorough; complete), (b) generated statements of all eight kinds (vocabulary hitting and missing the data, LIMIT 0/1/-1/2^63-1/float/text, aggregates over empty patterns, bindings reused across S/P/O/ID/TYPE/AT positions, OPTIONAL, bounds), (b2) statements that go wrong only while rows are processed: aggregates (sum / count / count distinct) over columns mixing numeric literals with nodes, text, predicates and NULL in both FROM orders, CONSTRUCT / DECONSTRUCT over satisfiable patterns with exactly one ill-kinded binding in one template slot (first or later pair), (c) character- and token-level mutations of (b), (d) random bytes, random UTF-8 and random keyword salad; a sample also under -race; " +
 			"monitor per statement, in a journaling worker process: recover() in the calling goroutine, process exit (panic in an engine goroutine, fatal error, log.Fatal), all-goroutines-blocked and hard watchdog, goroutine-leak snapshot after return, table-xor-error; non-trivial = reached Execute (parsed and planned) or was rejected after >=3 tokens; distinct by text",
 		Assume: []string{"termination is restated as bounded progress (hard watchdog 120 s per batch, cases take milliseconds)", "a goroutine counts as started on behalf of the call if it was created by badwolf code after the pre-call snapshot"},
 		Floor:  500,
 		Phases: func(tier string, seed int64) []rt.Phase {
-			maxLen, g, m, rn, rc := 2, 3000, 3000, 2000, 240
+			maxLen, g, m, rn, rc, itc := 2, 3000, 3000, 2000, 240, 40
 			if tier == "thorough" {
-				maxLen, g, m, rn, rc = 3, 50000, 50000, 50000, 6000
+				maxLen, g, m, rn, rc, itc = 3, 50000, 50000, 50000, 6000, 600
 			}
 			kinds := gram.AllKinds()
 			per := 60
@@ -224,6 +251,7 @@ func init() {
 				{Name: "tokens", N: len(kinds), Exhaustive: true, Run: func(i int, r *rt.Rec) { c08Tokens(r, kinds[i], maxLen) }},
 				{Name: "generated", N: g / per, Run: func(i int, r *rt.Rec) { c08Generated(r, gen.Rng(seed, "c08g", i), per, false) }},
 				{Name: "mutated", N: m / per, Run: func(i int, r *rt.Rec) { c08Generated(r, gen.Rng(seed, "c08m", i), per, true) }},
+				{Name: "runtime-typed", N: 16, Run: func(i int, r *rt.Rec) { c08RuntimeTyped(r, gen.Rng(seed, "c08t", i), i, 16, itc) }},
 				{Name: "random", N: rn / per, Run: func(i int, r *rt.Rec) { c08Random(r, gen.Rng(seed, "c08r", i), per) }},
 				{Name: "race-sample", N: rc / per, Race: true, Run: func(i int, r *rt.Rec) { c08Generated(r, gen.Rng(seed, "c08x", i), per, i%2 == 1) }},
 			}
